@@ -257,22 +257,25 @@ func tcpObserve(cl rtMaker, stream []byte, method string, hold, second bool) (ou
 // refFinal: the reference parser's reading of the whole stream as a client would consume it
 // (informational responses skipped): is the final message accepted, self-delimited, complete,
 // and is anything left behind it?
-func refFinal(stream []byte, method string) (accepted, selfDelimited, complete bool, code, leftover int) {
+// protoSwitch: the final response is a 101 that net/http turns into a writable body (Upgrade
+// header + Connection: upgrade token); a 101 without them is an ordinary bodiless final response.
+func refFinal(stream []byte, method string) (accepted, selfDelimited, complete, protoSwitch bool, leftover int) {
 	src := &segReader{data: stream}
 	br := bufio.NewReaderSize(src, 4096)
 	for i := 0; i < 8; i++ {
 		resp, err := http.ReadResponse(br, &http.Request{Method: method, Header: http.Header{}})
 		if err != nil {
-			return false, false, false, 0, 0
+			return false, false, false, false, 0
 		}
 		if resp.StatusCode >= 100 && resp.StatusCode <= 199 && resp.StatusCode != 101 {
 			continue
 		}
 		_, berr := io.ReadAll(resp.Body)
 		selfDelimited = resp.Body == http.NoBody || resp.ContentLength >= 0 || len(resp.TransferEncoding) > 0
-		return true, selfDelimited, berr == nil, resp.StatusCode, len(stream) - src.pos + br.Buffered()
+		sw := resp.StatusCode == 101 && resp.Header.Get("Upgrade") != "" && headerHasToken(resp.Header["Connection"], "upgrade")
+		return true, selfDelimited, berr == nil, sw, len(stream) - src.pos + br.Buffered()
 	}
-	return false, false, false, 0, 0
+	return false, false, false, false, 0
 }
 
 func tcpInput(stream []byte, method, shape string) streamInput {
@@ -283,8 +286,8 @@ func tcpInput(stream []byte, method, shape string) streamInput {
 
 // checkTCP: one stream x method over sockets, both clients, oracle + Coq case.
 func checkTCP(r *hk.Run, stream []byte, method, shape string, dumpToo bool) {
-	accepted, selfDel, complete, code, leftover := refFinal(stream, method)
-	if accepted && code == 101 {
+	accepted, selfDel, complete, protoSwitch, leftover := refFinal(stream, method)
+	if accepted && protoSwitch {
 		// 101 Switching Protocols: the body handed to the caller is the connection itself (what is
 		// buffered behind the head, then the socket).  Outside the Coq model; oracle only: the peer
 		// closes after writing, both clients must hand out the same head and the same bytes.
@@ -404,6 +407,16 @@ func tcpFixed() []struct{ data, shape string } {
 		{"HTTP/1.1 101 Switching Protocols\r\nUpgrade: x\r\nConnection: Upgrade\r\n\r\n", "tcp-101-bare"},
 		{"HTTP/1.1 100 Continue\r\n\r\nHTTP/1.1 101 Switching Protocols\r\nContent-Length: 3\r\n\r\nabcdef", "tcp-100-then-101-with-cl"},
 		{"HTTP/1.1 101 Switching Protocols\r\nTransfer-Encoding: chunked\r\n\r\n2\r\nhi\r\n0\r\n\r\n", "tcp-101-chunked"},
+		{"HTTP/1.1 101 Switching Protocols\r\n\r\n", "tcp-101-no-upgrade"},
+		{"HTTP/1.1 101 Switching Protocols\r\nUpgrade: x\r\n\r\n", "tcp-101-upgrade-without-connection-token"},
+		{"HTTP/1.1 101 Switching Protocols\r\nConnection: upgrade\r\n\r\n", "tcp-101-connection-token-without-upgrade"},
+		{"HTTP/1.1 101 Switching Protocols\r\nConnection: keep-alive\r\nContent-Length: 0\r\n\r\n", "tcp-101-keepalive-cl0"},
+		{"HTTP/1.1 099 Odd\r\nContent-Length: 0\r\n\r\n", "tcp-099-cl0"},
+		{"HTTP/1.1 000 Zero\r\nContent-Length: 2\r\n\r\nhi", "tcp-000-cl2"},
+		{"HTTP/1.1 099 Odd\r\nTransfer-Encoding: chunked\r\n\r\n2\r\nhi\r\n0\r\n\r\n", "tcp-099-chunked"},
+		{"HTTP/1.1 100 Continue\r\n\r\nHTTP/1.1 101 Switching Protocols\r\n\r\n", "tcp-100-then-101-no-upgrade"},
+		{"HTTP/1.1 200 OK\r\nContent-Length: 0\r\n\r\n", "tcp-200-cl0"},
+		{"HTTP/1.1 199 Odd\r\n\r\nHTTP/1.1 200 OK\r\nContent-Length: 0\r\n\r\n", "tcp-199-then-200-cl0"},
 		{"", "tcp-empty"},
 		{"HTTP/1.1 200 OK\r\nCo", "tcp-truncated-header"},
 		{"HTTP/1.1 2x0 OK\r\n\r\n", "tcp-bad-code"},
@@ -507,4 +520,17 @@ func runTCPLimits(r *hk.Run) {
 			}
 		}
 	}
+}
+
+// headerHasToken: httpguts.HeaderValuesContainsToken, transcribed (comma-separated, OWS-trimmed,
+// ASCII case-insensitive).
+func headerHasToken(vals []string, tok string) bool {
+	for _, v := range vals {
+		for _, f := range strings.Split(v, ",") {
+			if strings.EqualFold(strings.Trim(f, " \t"), tok) {
+				return true
+			}
+		}
+	}
+	return false
 }
